@@ -1180,7 +1180,9 @@ class Expr(UndefinedQuantity, ExprPrint, ExprMisc, ExprDomain):
     def __abs__(self):
         """Absolute value."""
 
-        return self.__class__(self.abs, **self.assumptions)
+        ret = self.__class__(self.abs, **self.assumptions)
+        ret.units = self.units
+        return ret
 
     def __neg__(self):
         """Negation."""
@@ -1774,7 +1776,10 @@ As a workaround use x.as_expr() %s y.as_expr()""" % op)
         result = sym.Integral(f1.subs(self.var, self.var - dummyvar) *
                               f2.subs(self.var, dummyvar),
                               (dummyvar, taumin, taumax))
-        ret = self.__class__(result, **assumptions)
+        cls = self.__class__
+        if self.quantity in ('transfer', 'undefined') and x.quantity != 'undefined':
+            cls = x.__class__
+        ret = cls(result, **assumptions)
         ret.units = self.units * x.units * self.domain_units
         return ret
 
@@ -1788,7 +1793,9 @@ As a workaround use x.as_expr() %s y.as_expr()""" % op)
 
     def copy(self):
         """Copy the expression."""
-        return self.__class__(self.sympy, **self.assumptions)
+        ret = self.__class__(self.sympy, **self.assumptions)
+        ret.units = self.units
+        return ret
 
     @property
     def conj(self):
@@ -1799,7 +1806,9 @@ As a workaround use x.as_expr() %s y.as_expr()""" % op)
     def conjugate(self):
         """Return complex conjugate."""
 
-        return self.__class__(sym.conjugate(self.sympy), **self.assumptions)
+        ret = self.__class__(sym.conjugate(self.sympy), **self.assumptions)
+        ret.units = self.units
+        return ret
 
     @property
     def real(self):
@@ -2660,7 +2669,9 @@ As a workaround use x.as_expr() %s y.as_expr()""" % op)
         var = symbols[symbolnames.index(str(var))]
 
         ret = sym.limit(self.sympy, var, value, dir=dir)
-        return self.__class__(ret, **self.assumptions)
+        result = self.__class__(ret, **self.assumptions)
+        result.units = self.units
+        return result
 
     def separate_dirac_delta(self):
         """Separate Dirac delta terms from expression."""
@@ -2710,6 +2721,7 @@ As a workaround use x.as_expr() %s y.as_expr()""" % op)
         else:
             ret = symsimplify(self.sympy, **kwargs)
             ret = self.__class__(ret, **self.assumptions)
+            ret.units = self.units
 
         ret._simplified = True
         return ret
@@ -2879,7 +2891,7 @@ As a workaround use x.as_expr() %s y.as_expr()""" % op)
 
         result = self.__class__(sym.diff(self.sympy, sarg, *symbols, **kwargs),
                                 **self.assumptions)
-        result.units /= arg.units
+        result.units = self.units / arg.units
         return result
 
     def diff(self, arg=None, *symbols, **kwargs):
@@ -2921,7 +2933,7 @@ As a workaround use x.as_expr() %s y.as_expr()""" % op)
         if isinstance(arg, tuple):
             arg = arg[0]
 
-        result.units *= arg.units
+        result.units = self.units * arg.units
         return result
 
     def rewrite(self, *args, **hints):
